@@ -6,7 +6,7 @@ import FeatherModel.Model.Visit
 `fullEvents c` lists the events of reading `c` with the tree-building configuration (`Visit.full`) without cursor,
 `avail` or failure: the specification against which masked / declining reads are projected. `wellFormed c` collects the
 conditions under which the full read succeeds on `c.size` available bytes: exact framing, a good header, at most one
-`BootstrapMethods`, at most one `Record`, at most one stack map per `Code`.
+`BootstrapMethods`, at most one `Record`, at most one stack map per `Code`, valid member names and descriptors.
 -/
 
 namespace Visit
@@ -57,8 +57,8 @@ def accAddPure (i : Nat) (a : Attr) (acc : KAcc) : KAcc :=
   match a.k with
   | .stackMapTable | .stackMap => { acc with frames := some a.pay }
   | .lineNumberTable => { acc with lines := acc.lines ++ [a.pay] }
-  | .lvt => { acc with locals := acc.locals ++ [(true, a.pay)] }
-  | .lvtt => { acc with locals := acc.locals ++ [(false, a.pay)] }
+  | .lvt => { acc with locals := acc.locals ++ [(.d, a.pay)] }
+  | .lvtt => { acc with locals := acc.locals ++ [(.s, a.pay)] }
   | .rvta | .rita => { acc with evs := acc.evs ++ [Ev.kAttr i false a.k a.pay] }
   | _ => { acc with evs := acc.evs ++ [Ev.kAttr i true a.k a.pay] }
 
@@ -115,8 +115,20 @@ def classAttrsWf : CSt → List CAttr → Bool
     else classAttrsWf st as
   | st, .record _ _ :: as => !st.hadRecord && classAttrsWf { st with hadRecord := true } as
 
-/-- exact framing, readable header, no attribute the reader refuses to see twice -/
+/-- exact framing, readable header, no attribute the reader refuses to see twice, every member header names a valid
+name and descriptor -/
 def wellFormed (c : ClassFrame) : Bool :=
   framesExact c && c.hdrOk && classAttrsWf {} c.attrs && c.methods.all (fun m => m.attrs.all mattrWf)
+    && c.fields.all (·.ok) && c.methods.all (·.ok)
+
+/-- the part of `wellFormed` that a read which skips the members (class declined, or `fields = methods = false`) depends
+on: readable header, class attributes exactly framed and none refused twice — nothing about the members -/
+def classLevelWf (c : ClassFrame) : Bool :=
+  c.attrs.all cattrExact && c.hdrOk && classAttrsWf {} c.attrs
+
+/-- the events of a full read that belong to the class itself and its record components -/
+def classEvents (c : ClassFrame) : List Ev :=
+  let r := classAttrsEv c.attrs
+  Ev.classBegin c.h :: r.1 ++ [Ev.classFlags r.2.1 r.2.2] ++ [Ev.classEnd]
 
 end Visit
